@@ -95,11 +95,10 @@ def check(run):
         run.notes.append("%d disagreeing case(s)" % nbad)
     if not corr_ok and not run.violations and not run.known_hits:
         run.violation("correspondence-broken", "case files could not be evaluated", dict(notes=run.notes), no_input=True)
-    if not tie["ok"] and corr_ok:
-        run.notes.append("translator tie did not hold (%s); the exhaustive correspondence is clean, so the model still "
-                         "describes the code: tie = correspondence only" % tie["mode"])
-    if not tie["ok"] and not corr_ok and not run.violations:
-        run.violation("tie-broken", "neither the translator tie nor the correspondence holds", dict(log=tie["log"][-1500:]), no_input=True)
+    if not tie["ok"] and not run.violations:
+        run.violation("tie-broken", "Tie_Accept2 no longer checks against the negotiation code translated from the current source (%s); "
+                      "the header sweep found no request on which the implementation differs from the model" % tie["mode"],
+                      dict(theorem="coqgen/Tie_Accept2.v", mode=tie["mode"], log=tie["log"][-1500:]), no_input=True)
     # byte-level model of request.Decode: the 400 decision on the bytes of the body
     bstats = _bytes.evaluate(run, wd, "bytes_C20", "request bodies through request.Decode and server.Request with acceptable headers")
     if bstats:
